@@ -25,7 +25,8 @@ ASSUME13 = [
     "issued or just before its reply; the expected result does not depend on it",
     "some vectors are issued behind an in-flight command whose caller has cancelled its Deferred: Tor still answers that command "
     "first, and the answer must not be taken for the vector's; some GETINFO vectors are issued twice in a row behind a busy connection "
-    "(two callers asking the same): both must get the value; some are issued while a multi-line event is half received",
+    "(two callers asking the same): both must get the value; some are issued while a multi-line event is half received; some are "
+    "fallbacks, issued from the error handler of a request Tor has just refused",
 ]
 CRIT12 = ["a", " ", "\t", '"', "\\", "=", "\r", "\n"]
 CRIT13 = ["a", "=", " ", '"', "'", "2", "5", "0", ".", "O", "K"]
@@ -133,7 +134,7 @@ def run(pid, tier, seed):
         rep.assumptions = list(ASSUME13)
         rep.tlc("KvLine_MC (grammar round trip)", tlc.run_tlc("KvLine_MC", "KvLine_MC_quick.cfg", workers=16, timeout=900))
         recs = []
-        noises = ["none"] * 6 + ["%s@%s" % (sh, at) for sh in ("midline", "block", "single") for at in ("before", "during")] + ["cancel@before"] * 2 + ["twin@before"] * 2 + ["split@before"] * 2
+        noises = ["none"] * 6 + ["%s@%s" % (sh, at) for sh in ("midline", "block", "single") for at in ("before", "during")] + ["cancel@before"] * 2 + ["twin@before"] * 2 + ["split@before"] * 2 + ["fallback@before"] * 2
         for i, v in enumerate(vectors13(tier, seed)):
             noise = rng.choice(noises)
             # every other single-key request goes through the single-value form of the API
